@@ -38,6 +38,7 @@ type vconn struct {
 	closedAt     int64
 	stamp        bool
 	yieldAfterWrite bool // a scheduling point after the packet was accepted and before Write returns
+	closeErr        error // returned by the first Close (e.g. a TLS / websocket teardown error)
 }
 
 func newVconn(name string) *vconn {
@@ -147,7 +148,7 @@ func (c *vconn) Close() error {
 	if already {
 		return errVconnClosed
 	}
-	return nil
+	return c.closeErr
 }
 
 // inject makes bytes available to the client's reader.
